@@ -20,7 +20,7 @@ for pid, spec in sorted((p, registry.CHECKS[p]) for p in registry.CLAIMED):
         "engine": "kani-cbmc",
         "level_claimed": {
             "category": "model_checking",
-            "text": spec.get("level_text", "Bounded model checking of the real bgpfu-rs functions: Kani compiles the repository sources (against "
+            "text": spec.get("level_text", spec.get("level_text_prefix", "") + "Bounded model checking of the real bgpfu-rs functions: Kani compiles the repository sources (against "
                     "verification models of their third-party environment) and CBMC decides every assertion for all values of the symbolic "
                     "inputs within the stated bounds, with unwinding assertions on.  " + spec.get("explanation", "")),
             "design_ref": spec.get("design_ref", "DESIGN.md §5 " + pid + " (intent), 9.6 (what is claimed), 9.2 (why the bounds are what they are)"),
